@@ -159,7 +159,9 @@ func (s *Seq) smallSweep(tag, ctx string) {
 }
 
 // smallLayout: the second collection's directory at a quiescent point.
-func (s *Seq) smallLayout(ctx string) {
+func (s *Seq) smallLayout(ctx string) { s.softOracle("layout", func() { s.smallLayout0(ctx) }) }
+
+func (s *Seq) smallLayout0(ctx string) {
 	if s.small == nil || !s.quiescent {
 		return
 	}
